@@ -292,6 +292,7 @@ def run(idx: ProgramIndex, rep: Report, tier: str):
     scale_tril_is_triangular(idx, rep, M)
     argument_reshapes(idx, rep, M)
     initialises_what_it_creates(idx, rep)
+    reflected_scalar_operators(idx, rep, M)
 
 
 # ---- C10-5: a Cholesky factor carried over into a new distribution ------------------------------------------------------
@@ -943,3 +944,26 @@ def initialises_what_it_creates(idx: ProgramIndex, rep: Report):
                             "the constructor runs on the object the method created" if not on_self else
                             "`%s` re-initialises the receiver: d.%s(...) changes d itself (its batch shape) and the returned object never gets the state the constructor sets (AttributeError on batch_shape / log_prob)" % (src(c)[:60], fdef.name), {})
     rep.floor("C10-13", "constructor calls inside non-constructor methods of the distribution classes", n, 3)
+
+
+# ---- C10-14 --------------------------------------------------------------------------------------------------------
+def reflected_scalar_operators(idx: ProgramIndex, rep: Report, M: ClassInfo):
+    """`*` and `+` with a scalar act on the random vector whichever side the scalar stands on.  Python tries the reflected method when the
+    left operand is a number: a class that defines __mul__ / __add__ for scalars has to define __rmul__ / __radd__ (delegating, both
+    operations are commutative), otherwise `2 * d` raises TypeError where `d * 2` works."""
+    rep.rule("C10-14", "scalar arithmetic is defined from both sides: __add__ / __mul__ with numbers have reflected counterparts __radd__ / __rmul__ that delegate to them")
+    n = 0
+    for op, rop in (("__add__", "__radd__"), ("__mul__", "__rmul__")):
+        f = M.methods.get(op)
+        if f is None:
+            continue
+        handles_numbers = any(isinstance(c, ast.Call) and chain(c.func) == "isinstance" and any(isinstance(x, ast.Name) and x.id in ("int", "float", "Number") for x in ast.walk(c)) for c in ast.walk(f.node))
+        if not handles_numbers:
+            continue
+        n += 1
+        r = M.methods.get(rop)
+        ok = r is not None and any(isinstance(c.func, ast.Attribute) and c.func.attr == op for c in calls_in(r.node))
+        rep.add("C10-14", "%s:MultivariateNormal.%s" % (M.module.name, rop), (r or f).where, ok,
+                "%s delegates to %s" % (rop, op) if ok else
+                ("%s accepts numbers but %s is not defined: `2 * d`, `2.5 * d` raise TypeError (unsupported operand) where `d * 2` scales the random vector" % (op, rop) if r is None else "%s does not delegate to %s" % (rop, op)), {})
+    rep.floor("C10-14", "scalar operators", n, 2)
